@@ -2,7 +2,7 @@
 # usage: import_seeded.sh <worktree> <PROP> <A|B>  -- verify an agent's mutant independently in a scratch worktree and store it under /verif/seeded/
 set -u
 WT=$1; PROP=$2; L=$3
-ID="${PROP}-$(echo $L | tr 'AB' 'ab')"
+ID="${PROP}-$(echo $L | tr "AB" "${SUFFIXES:-ab}")"
 DST=/verif/seeded/$ID
 V=/tmp/verify-wt-$$
 git -C /repo worktree add -q --detach $V HEAD || exit 9
